@@ -276,7 +276,8 @@ def generate(prop, rng, tier):
                           "k_1": [rng.choice([3.0, 5.0, 7.5]) for _ in range(n_el)],
                           "ND": [rng.choice([1e6, 2e6, 5e5]) for _ in range(n_el)],
                           "SD": [rng.choice([100.0, 250.0, 320.0]) for _ in range(n_el)],
-                          "k_2": [rng.choice([float("inf"), 9.0, 13.0]) for _ in range(n_el)],
+                          "k_2": [rng.choice([float("inf"), 9.0, 13.0, 9.5]) for _ in range(n_el)],
+                          "k1_int": rng.random() < 0.3,
                           "scenarios": rng.sample(["s1", "s2", "s3", "s4"], n_sc),
                           "loads": [rng.choice([80.0, 120.0, 250.0, 300.0, 500.0]) for _ in range(n_sc)],
                           "calc": rng.choice(["cycles", "cycles", "load"]),
@@ -784,7 +785,10 @@ def _wc_step(st, k, out, log):
     the element-by-element scalar evaluation."""
     el = [int(x) for x in st["elements"]]
     ename = st["element_level_name"]
-    wc = pd.DataFrame({"k_1": st["k_1"], "ND": st["ND"], "SD": st["SD"], "k_2": [float(x) for x in st["k_2"]],
+    k1 = [float(x) for x in st["k_1"]]
+    if st.get("k1_int") and all(x == int(x) for x in k1):
+        k1 = [int(x) for x in k1]            # integer slopes are as valid as float ones
+    wc = pd.DataFrame({"k_1": k1, "ND": st["ND"], "SD": st["SD"], "k_2": [float(x) for x in st["k_2"]],
                        "TN": 1.0, "TS": 1.0, "failure_probability": 0.5},
                       index=pd.Index(el, name=ename))
     calc = st.get("calc", "cycles")
